@@ -188,16 +188,13 @@ class GateDomain(Domain):
     def call(self, node, fval, args, kwargs, state):
         name = call_name(node)
         out = self.cfg.get("outcome", "ok")
-        if name == "func" or name == "self._set_many":
+        if name == "func" or name == "client.set_many":
+            # the one place where the server is contacted (`_set_many`, whatever it returns or re-raises, is inlined)
             st = self._ev(state, "contact")
             self.events.append(("contact", node))
-            if name == "func":
-                if out == "ok":
-                    return [("ok", Opaque("result"), st)]
-                return [("exc", Exc(ORD, OUTCOME_CLASS[out], node.lineno), st)]
-            # _set_many returns (succeeded, failed, err)
-            err = NONE if out == "ok" else ErrVal(OUTCOME_CLASS[out])
-            return [("ok", TupleV((Opaque("succeeded"), Opaque("failed"), err)), st)]
+            if out == "ok":
+                return [("ok", Opaque("result" if name == "func" else "failed"), st)]
+            return [("exc", Exc(ORD, OUTCOME_CLASS[out], node.lineno), st)]
         if name == "time.time":
             return [("ok", lin("now"), state)]
         if name == "self._mark_failed_server":
